@@ -6,6 +6,7 @@
 //!   c14:jwk     {"hex": <text bytes>, "prim": {…}}            `Box<AnyKey>::from_jwk`, then every export of the key
 //!   c14:secret  {"alg", "bytes", "prim"}                      `from_secret_bytes`, then every export
 //!   c14:public  {"alg", "bytes", "prim"}                      `from_public_bytes`, then every export
+//!   c14:typed   {"type","hex","src_alg","prim"}                `<concrete key type>::from_jwk` (8 types), own and foreign JWKs
 //!   c14:enc     {"alg","secret"|"public","mode","view","ops","kid","prim"}  `JwkBufferEncoder::new(..).alg(..).key_ops(..).kid(..)`,
 //!                                                              `encode_jwk`, `finalize`; the text, and `JwkParts::from_slice` of it
 //!   c14:keypair {"alg","bytes","op":"from"|"to_public"}        `KeypairBytes::from_keypair_bytes` / `to_keypair_bytes` of the 5 concrete types
@@ -13,7 +14,7 @@
 //! "class" / "expect" / "want_*" are read by the oracle only; "prim" (table of third-party curve results for
 //! Ed25519 / X25519 / BLS12-381) is read by the Lean model only.
 use crate::rng::Rng;
-use askar_crypto::alg::{AesTypes, AnyKey, AnyKeyCreate, BlsCurves, Chacha20Types, EcCurves, KeyAlg};
+use askar_crypto::alg::{AesTypes, AnyKey, AnyKeyCreate, BlsCurves, Chacha20Types, EcCurves, HasKeyAlg, KeyAlg};
 use askar_crypto::alg::{bls::{BlsKeyPair, G1, G1G2, G2}, ed25519::Ed25519KeyPair, k256::K256KeyPair, p256::P256KeyPair, p384::P384KeyPair, x25519::X25519KeyPair};
 use askar_crypto::jwk::{FromJwk, JwkBufferEncoder, JwkEncoder, JwkEncoderMode, JwkParts, JwkSerialize, KeyOps, KeyOpsSet, ToJwk};
 use askar_crypto::repr::{KeyPublicBytes, KeypairBytes, ToPublicBytes, ToSecretBytes};
@@ -188,6 +189,8 @@ fn summary(k: &AnyKey) -> Value {
     m.insert("secret".into(), hex_res(guarded(|| k.to_secret_bytes().map(|b| b.to_vec()))));
     m.insert("public".into(), hex_res(guarded(|| k.to_public_bytes().map(|b| b.to_vec()))));
     m.insert("jwk_secret".into(), text_res(guarded(|| k.to_jwk_secret(None).map(|b| b.to_vec()))));
+    m.insert("public_len".into(), match guarded(|| k.public_bytes_length()) { Ok(n) => json!(n), Err(e) => jerr(e) });
+    m.insert("secret_len".into(), match guarded(|| k.secret_bytes_length()) { Ok(n) => json!(n), Err(e) => jerr(e) });
     m.extend(views(k, None));
     if info.name == "bls12381g1g2" {
         m.insert("g1".into(), Value::Object(views(k, Some(KeyAlg::Bls12_381(BlsCurves::G1)))));
@@ -247,6 +250,10 @@ fn check_key(or: &mut Vec<Value>, k: &AnyKey, s: &Value) {
     let c = info.class;
     let secret = s["secret"].as_str().map(|h| hex::decode(h).unwrap());
     let public = s["public"].as_str().map(|h| hex::decode(h).unwrap());
+    // the length accessors announce what the exports produce
+    if let Some(pk) = &public { if s["public_len"].as_u64() != Some(pk.len() as u64) { fail(or, format!("public_bytes_length:differs-from-export:{}", c.s()), json!({"alg": info.name, "announced": s["public_len"], "produced": pk.len()})); } }
+    else if s["public_len"].as_u64().is_some() { fail(or, format!("public_bytes_length:length-of-nothing:{}", c.s()), json!({"alg": info.name})); }
+    if let Some(sk) = &secret { if s["secret_len"].as_u64() != Some(sk.len() as u64) { fail(or, format!("secret_bytes_length:differs-from-export:{}", c.s()), json!({"alg": info.name, "announced": s["secret_len"], "produced": sk.len()})); } }
     // secret bytes round trip
     if let Some(sk) = &secret {
         match import_secret(info.alg, sk) {
@@ -443,6 +450,7 @@ pub fn exec(case: &Value, _tag: &str) -> Value {
                     bump(&mut feat, format!("jwk:err:{}", e));
                     let ac = case["alg_class"].as_str().unwrap_or("");
                     if e == "Panic" { fail(&mut or, format!("from_jwk:err->panic:{}:{}", ac, sigclass(&class)), json!({"text": text, "class": class})); }
+                    else if class.starts_with("non-string:") && e != "Invalid" { fail(&mut or, format!("from_jwk:wrong-error-kind:{}:non-string", e), json!({"text": text, "class": class})); }
                     else if expect == Some("ok") {
                         // no symmetric key can be imported from a JWK at all (no `oct` branch): one signature for that
                         let sig = if ac == "sym" && e == "Unsupported" { "from_jwk:ok->err:Unsupported:oct".to_string() } else { format!("from_jwk:ok->err:{}:{}", e, sigclass(&class)) };
@@ -490,6 +498,7 @@ pub fn exec(case: &Value, _tag: &str) -> Value {
                 }
             }
         }
+        "c14:typed" => exec_typed(case, &class, &mut or, &mut feat),
         "c14:enc" => exec_enc(case, &class, &mut or, &mut feat),
         "c14:keypair" => exec_keypair(case, &class, &mut or, &mut feat),
         "c14:convert" => exec_convert(case, &class, &mut or, &mut feat),
@@ -983,6 +992,9 @@ pub fn gen(r: &mut Rng, thorough: bool, count: Option<usize>) -> Vec<Value> {
     gen_enc(&mut o, r, thorough);
     gen_keypair(&mut o, r, thorough);
     gen_convert(&mut o, r, thorough);
+    // third wave (round-2 coverage row 5)
+    gen_non_string(&mut o, r, thorough);
+    gen_typed(&mut o, r, thorough);
     let mut cases = o.cases;
     if let Some(n) = count {
         // a spread sample that keeps every kind
@@ -1476,5 +1488,113 @@ fn gen_convert(o: &mut Out, r: &mut Rng, thorough: bool) {
     }
     for sk in [vec![0u8; 32], { let mut v = vec![0u8; 32]; v[31] = 1; v }] {
         for to in ["bls12381g1", "bls12381g2", "bls12381g1g2"] { o.push(conv(&g12, Some(&sk), None, to, "convert:bls:boundary-scalar")); }
+    }
+}
+
+
+// ---------------------------------------------------------------------------------------------------------------------
+// third wave: members with a non-string JSON value; the concrete key types' own `from_jwk` on own and foreign JWKs
+
+const TYPED: [&str; 8] = ["ed25519", "x25519", "k256", "p256", "p384", "bls12381g1", "bls12381g2", "bls12381g1g2"];
+
+fn typed_from<K: FromJwk + HasKeyAlg + ToSecretBytes + ToPublicBytes>(text: &str) -> Result<Value, askar_crypto::Error> {
+    let k = K::from_jwk(text)?;
+    let info = alg_by_keyalg(k.algorithm());
+    Ok(json!({"alg": info.name, "secret": hex_res(k.to_secret_bytes().map(|b| b.to_vec()).map_err(|e| ek(&e))), "public": hex_res(k.to_public_bytes().map(|b| b.to_vec()).map_err(|e| ek(&e))),
+        "public_len": k.public_bytes_length()?, "secret_len": k.secret_bytes_length()?}))
+}
+
+fn exec_typed(case: &Value, class: &str, or: &mut Vec<Value>, feat: &mut Map<String, Value>) -> Value {
+    let ty = case["type"].as_str().unwrap_or("");
+    let text = text_of(case);
+    let r = guarded(|| match ty {
+        "ed25519" => typed_from::<Ed25519KeyPair>(&text), "x25519" => typed_from::<X25519KeyPair>(&text), "k256" => typed_from::<K256KeyPair>(&text),
+        "p256" => typed_from::<P256KeyPair>(&text), "p384" => typed_from::<P384KeyPair>(&text), "bls12381g1" => typed_from::<BlsKeyPair<G1>>(&text),
+        "bls12381g2" => typed_from::<BlsKeyPair<G2>>(&text), _ => typed_from::<BlsKeyPair<G1G2>>(&text),
+    });
+    let expect = case["expect"].as_str();
+    bump(feat, format!("typed:{}:{}", if expect == Some("ok") { "own" } else { "foreign" }, match &r { Ok(_) => "ok", Err(e) => e }));
+    match r {
+        Ok(v) => {
+            if expect == Some("err") { fail(or, format!("typed_from_jwk:err->ok:{}", sigclass(class)), json!({"type": ty, "text": text, "class": class})); }
+            if v["alg"] != ty { fail(or, "typed_from_jwk:wrong-algorithm".into(), json!({"type": ty, "got": v["alg"]})); }
+            if let Some(w) = case["want_public"].as_str() { if v["public"].as_str() != Some(w) { fail(or, format!("typed_from_jwk:different-public:{}", sigclass(class)), json!({"type": ty, "text": text})); } }
+            if let Some(w) = case.get("want_secret") { if (w.is_null() && v["secret"].as_str().is_some()) || (w.is_string() && v["secret"] != *w) { fail(or, format!("typed_from_jwk:different-secret:{}", sigclass(class)), json!({"type": ty, "text": text})); } }
+            if v["public"].as_str().map(|h| h.len() as u64 / 2) != v["public_len"].as_u64() { fail(or, "public_bytes_length:differs-from-export:typed".into(), json!({"type": ty})); }
+            if let Some(h) = v["secret"].as_str() { if Some(h.len() as u64 / 2) != v["secret_len"].as_u64() { fail(or, "secret_bytes_length:differs-from-export:typed".into(), json!({"type": ty})); } }
+            v
+        }
+        Err(e) => {
+            if e == "Panic" { fail(or, format!("typed_from_jwk:err->panic:{}", sigclass(class)), json!({"type": ty, "text": text, "class": class})); }
+            else if expect == Some("ok") { fail(or, format!("typed_from_jwk:ok->err:{}:{}", e, sigclass(class)), json!({"type": ty, "text": text, "class": class})); }
+            else if class.starts_with("typed:foreign") && e != "InvalidKeyData" { fail(or, format!("typed_from_jwk:wrong-error-kind:{}:{}", e, sigclass(class)), json!({"type": ty, "text": text, "class": class})); }
+            jerr(e)
+        }
+    }
+}
+
+/// every string-valued member (kty, crv, x, y, d, k, alg, and an added kid) with a value of every other JSON type, for every algorithm
+fn gen_non_string(o: &mut Out, r: &mut Rng, thorough: bool) {
+    let values: Vec<(&str, &str, &'static str)> = vec![("number", "5", "num"), ("bool", "true", "bool"), ("null", "null", "null"), ("array-of-string", "[\"a\"]", "strarr"), ("object", "{}", "obj"),
+        ("number-neg-frac", "-1.5e3", "num"), ("array-empty", "[]", "strarr"), ("array-mixed", "[1,\"a\"]", "arr"), ("object-with-string", "{\"a\":\"b\"}", "obj"), ("bool-false", "false", "bool")];
+    for info in algs() {
+        let sk = random_secret(r, &info);
+        let s = summary(&import_secret(info.alg, &sk).unwrap());
+        let mut base = members_of_jwk(s["jwk_secret"].as_str().unwrap());
+        base.push(mstr("kid", "key-1"));
+        let fields: Vec<String> = base.iter().map(|m| m.key.clone()).collect();
+        for f in &fields {
+            for (vi, (vname, raw, t)) in values.iter().enumerate() {
+                if !thorough && vi >= 5 && !r.chance(1, 4) { continue; }
+                let ms: Vec<Member> = base.iter().map(|m| if &m.key == f { Member { key: m.key.clone(), raw: raw.to_string(), t } } else { m.clone() }).collect();
+                o.jwk(r, &ms, vi % 3 == 2, &format!("non-string:{}:{}", f, vname), Some("err"), &info, None, true);
+            }
+        }
+    }
+}
+
+/// each of the 8 concrete key types that implement `FromJwk`, given the JWK of a key of each of the 16 algorithms (secret and public form),
+/// and its own JWK with a foreign / missing `kty` or `crv`
+fn gen_typed(o: &mut Out, r: &mut Rng, _thorough: bool) {
+    let all = algs();
+    let sources: Vec<(String, Vec<u8>, Value)> = all.iter().map(|info| { let sk = random_secret(r, info); let s = summary(&import_secret(info.alg, &sk).unwrap()); (info.name.to_string(), sk, s) }).collect();
+    let case = |ty: &str, text: &str, src: &str, class: &str, expect: &str, want: Option<(Option<&str>, &str)>, ms: &[Member]| -> Value {
+        let mut c = json!({"kind": "c14:typed", "type": ty, "src_alg": src, "hex": hex::encode(text.as_bytes()), "text": text, "class": class, "expect": expect, "prim": hints_members(ms)});
+        if let Some((sk, pk)) = want { c["want_secret"] = sk.map_or(Value::Null, |s| json!(s)); c["want_public"] = json!(pk); }
+        c
+    };
+    for ty in TYPED {
+        for (src, _, s) in &sources {
+            let own = src == ty;
+            for (form, field) in [("secret", "jwk_secret"), ("public", "jwk_public")] {
+                let text = match s[field].as_str() { Some(t) => t.to_string(), None => continue };
+                let ms = members_of_jwk(&text);
+                let want = if own { Some((if form == "secret" { s["secret"].as_str() } else { None }, s["public"].as_str().unwrap())) } else { None };
+                o.push(case(ty, &text, src, &format!("typed:{}:{}", if own { "own" } else { "foreign" }, form), if own { "ok" } else { "err" }, want, &ms));
+            }
+        }
+        // the type's own JWK with another / no kty, another / no crv
+        let (_, _, s) = sources.iter().find(|(n, _, _)| n == ty).unwrap();
+        let ms = members_of_jwk(s["jwk_secret"].as_str().unwrap());
+        let info = alg_by_name(ty).unwrap();
+        for kty in ["EC", "OKP", "oct", "RSA", "", "okp", "ec"] {
+            let own_kty = get_member(&ms, "kty").unwrap();
+            if kty == own_kty { continue; }
+            let accepted = info.class == Class::Bls && kty == "EC";
+            let m2 = set_member(&ms, "kty", kty);
+            let want = if accepted { Some((s["secret"].as_str(), s["public"].as_str().unwrap())) } else { None };
+            o.push(case(ty, &render(&m2, r, false), ty, &format!("typed:{}:kty:{}", if accepted { "own" } else { "foreign" }, kty), if accepted { "ok" } else { "err" }, want, &m2));
+        }
+        for crv in all.iter().map(|a| a.crv).filter(|c| !c.is_empty()).chain(["P-521", "", "ed25519", "Ed25519 "]) {
+            if crv == info.crv { continue; }
+            let m2 = set_member(&ms, "crv", crv);
+            o.push(case(ty, &render(&m2, r, false), ty, &format!("typed:foreign:crv:{}", crv), "err", None, &m2));
+        }
+        for f in ["kty", "crv"] { let m2 = drop_member(&ms, f); o.push(case(ty, &render(&m2, r, false), ty, &format!("typed:{}:missing:{}", if f == "crv" { "foreign" } else { "malformed" }, f), "err", None, &m2)); }
+        // not a JWK at all, and a non-string kty / crv: the parser's error, not the type's
+        for (name, t) in [("empty", "".to_string()), ("array", "[]".to_string()), ("kty-number", render(&ms, r, false).replacen(&format!("\"kty\":\"{}\"", get_member(&ms, "kty").unwrap()), "\"kty\":7", 1)),
+            ("crv-null", render(&ms, r, false).replacen(&format!("\"crv\":\"{}\"", info.crv), "\"crv\":null", 1))] {
+            o.push(case(ty, &t, ty, &format!("typed:malformed:{}", name), "err", None, &ms));
+        }
     }
 }
